@@ -25,7 +25,7 @@ for d in seeded/$pat/; do
   git -C /repo checkout -- .
   expect=$(python3 -c "import json; print(json.load(open('$d/meta.json')).get('confirmed_by_hand',{}).get('expected_by_seedall','caught'))" 2>/dev/null || echo caught)
   if [ -n "$caught" ]; then echo "$id: caught by$caught";
-  elif [ "$expect" = "not-caught" ]; then echo "$id: not caught, as recorded (outside the property as stated; see meta.json)";
+  elif [ "$expect" = "not-caught" ]; then echo "$id: not caught, as recorded (outside the property as stated, or neutralised by a later fix; see meta.json)";
   else echo "$id: NOT CAUGHT (checks run: $checks)"; fail=1; fi
 done
 git -C /repo status --short | head -3
